@@ -106,7 +106,10 @@ def run(ctx):
                 "ids, CAN-IDs, names, membership) snapshotted around every call; 40 % of the buses have node ids agreeing in the low 4 "
                 "bits and message ids from a small set (also congruent mod 128), 40 % a custom CAN-ID builder (message id only / node "
                 "id only / no operations), so distinct messages share computed CAN-IDs and names; entries are matched to the sent "
-                "message objects by identity. Each bus is built through the public API (0..5 interfaces, 0..40 "
+                "message objects by identity and the expected set is exactly the messages sent through interfaces attached to this bus; "
+                "70 % of the buses are decorated (gateway nodes with other interfaces carrying messages on another bus / no bus, static "
+                "CAN-IDs below and above 0x7FF set before or after attaching, delay / start-delay times around the cycle time, wide ids "
+                "with a mask-less builder, priority, send type, description, signals, receivers, attribute assignments). Each bus is built through the public API (0..5 interfaces, 0..40 "
                 "messages, sizes 0..8, cycle 0 (default) or 1..3600000, baud in {0,125k,500k,1M,1,random,negative}, default cycle in "
                 "{-1,0,1,100,random,min int,...}); families: mixed, slow messages whose rates all differ by < 1 bit/s, neighbouring "
                 "cycle times, default-cycle ties, fast messages; every accepted bus is re-run with one message enlarged and with one "
